@@ -1,8 +1,10 @@
 package main
 
 import (
+	"encoding/json"
 	"fmt"
 	"reflect"
+	"strings"
 
 	ctime "verif/harness/internal/clock/time"
 
@@ -145,6 +147,10 @@ func runGraphs(c *Ctx, prop string, width, depth int) error {
 		w.Add(term, desc, fmt.Sprintf("user-type-named-time:%d", i))
 		w.Count("user-time-type")
 	}
+	// ---- arrays of structs (all zero: a zero value, skipped under exist and reported under required), maps keyed by
+	// bool / float / small integers (the key is part of the path), pointers to pointers to structs
+	emitDirectedShapes(w)
+	emitJsonEchoes(w)
 	// ---- cross-field groups (C02: "group clauses last", "exactly one clause per violated rule instance")
 	{
 		for i := 0; i < n/6; i++ {
@@ -164,4 +170,78 @@ func runGraphs(c *Ctx, prop string, width, depth int) error {
 		}
 	}
 	return w.Flush()
+}
+
+type directedCase struct {
+	src  interface{}
+	exps []expE
+	cell string
+}
+
+func directedShapes() []directedCase {
+	ok := WReq{R: "x", N: 7}
+	pz := &WReq{}
+	ppz := &pz
+	pz2 := &WReq{N: 2}
+	ppz2 := &pz2
+	var nilp *WReq
+	return []directedCase{
+		{&WArr{}, []expE{{"C", "WArr.B", "T91"}}, "array-all-zero"},
+		{&WArr{A: [2]WReq{ok, {}}, B: [2]WReq{{}, ok}}, []expE{{"C", "WArr.A[1].R", "T95"}, {"C", "WArr.B[0].R", "T95"}}, "array-half-zero"},
+		{&WArr{A: [2]WReq{{N: 2}, ok}, B: [2]WReq{ok, ok}}, []expE{{"C", "WArr.A[0].R", "T95"}, {"C", "WArr.A[0].N", "T96"}}, "array-nonzero"},
+		{&WKeyed{MB: map[bool]WReq{true: {}}, MF: map[float64]WReq{1.5: {}}, MP: map[int8]*WReq{-3: {}}, MU: map[uint16]WReq{65535: {N: 1}}},
+			[]expE{{"C", "WKeyed.MB[true].R", "T95"}, {"C", "WKeyed.MF[1.5].R", "T95"}, {"C", "WKeyed.MP[-3].R", "T95"},
+				{"C", "WKeyed.MU[65535].R", "T95"}, {"C", "WKeyed.MU[65535].N", "T96"}}, "map-keys-bool-float-int8"},
+		{&WKeyed{MB: map[bool]WReq{false: ok}}, []expE{{"C", "WKeyed.MP", "T93"}}, "map-keys-false"},
+		{&WPP{PP: ppz, EP: ppz2}, []expE{{"C", "WPP.PP.R", "T95"}, {"C", "WPP.EP.R", "T95"}, {"C", "WPP.EP.N", "T96"}}, "ptr-ptr-struct"},
+		{&WPP{PP: &nilp, EP: &nilp}, nil, "ptr-ptr-inner-nil"}, // a non-nil pointer is not the zero value of its type
+		{&WPP{}, []expE{{"C", "WPP.PP", "T94"}}, "ptr-ptr-nil"},
+		{&WEmb{WAge: 200, WNick: "abc", WReq: WReq{N: 2}, N: 1}, []expE{{"C", "WEmb.WAge", "T81"}, {"C", "WEmb.WNick", "T82"},
+			{"C", "WEmb.WReq.R", "T95"}, {"C", "WEmb.WReq.N", "T96"}, {"C", "WEmb.N", "T83"}}, "embedded-fields"},
+		{&WEmb{WAge: 20, WNick: "abcdef", N: 7}, nil, "embedded-fields-ok"},
+	}
+}
+
+// the json rule echoes its input up to 256 bytes and a placeholder beyond; a clause carries the echo
+func emitJsonEchoes(w *gal.Writer) {
+	for _, n := range []int{0, 1, 255, 256, 257, 300} {
+		bad := "{" + strings.Repeat("x", n)
+		if n == 0 {
+			bad = "x"
+		}
+		bad = bad[:len(bad)-1] + "'" // one character StrEscape rewrites
+		for len(bad) < n {
+			bad += "y"
+		}
+		for _, good := range []bool{false, true} {
+			j := bad
+			if good {
+				j = "[" + strings.Repeat("1,", (n+1)/2) + "1]"
+			}
+			orc := newOracles()
+			orc.json[j] = json.Valid([]byte(j))
+			orc.json[bad] = false
+			call := &walkCall{Entry: "struct", Src: &WJson{J: j, K: bad}, Orc: orc}
+			exps := []expE{{"D", "WJson.K", ""}}
+			if !good {
+				exps = []expE{{"C", "WJson.J", "T97"}, {"D", "WJson.K", ""}}
+			}
+			term, desc := call.caseTerm([]string{"SExpect true " + galExps(exps), "SNoPanic"})
+			w.Add(term, desc, fmt.Sprintf("directed:json-echo:%d:%v", len(j), good))
+			w.Count("directed-json")
+		}
+	}
+}
+
+func emitDirectedShapes(w *gal.Writer) {
+	for _, d := range directedShapes() {
+		call := &walkCall{Entry: "struct", Src: d.src}
+		spec := "SNil"
+		if len(d.exps) > 0 {
+			spec = "SExpect true " + galExps(d.exps)
+		}
+		term, desc := call.caseTerm([]string{spec, "SNoPanic"})
+		w.Add(term, desc, "directed:"+d.cell)
+		w.Count("directed-shapes")
+	}
 }
